@@ -6,10 +6,12 @@
     references, several live DB objects; this is the function the correspondence
     check runs).  Spec: Debtags/Spec.v (a finite relation; several objects with
     sharing groups).  Proofs: Debtags/SetProofs.v, DictProofs.v, Proofs.v (linear),
-    HeapBase.v, HeapInsert.v, HeapDerive.v, HeapWf.v, HeapSim.v, HeapTheorems.v. *)
+    HeapBase.v, HeapInsert.v, HeapDerive.v, HeapWf.v, HeapSim.v, HeapTheorems.v,
+    CheckProofs.v (the link to the predicates [agree] / [holds] of Debtags/Check.v). *)
 From Coq Require Import String.
 From Verif Require Import Lib.Base Lib.Dec Debtags.StrSet Debtags.Model Debtags.Spec
-  Debtags.Proofs Debtags.HeapWf Debtags.HeapSim Debtags.HeapTheorems.
+  Debtags.Check Debtags.Proofs Debtags.HeapWf Debtags.HeapSim Debtags.HeapTheorems
+  Debtags.CheckProofs.
 
 (** [Inv c]: a package is listed under a tag exactly when the tag is listed for
     the package. *)
@@ -87,6 +89,20 @@ Proof.
   intros fx c ops l Hc Hd. apply choose_copy_error, run_repr; [now apply coll_wf_repr|assumption].
 Qed.
 
+(** the module-level functions: [reverse(db)] is the inverse index of any dict;
+    in particular of [read_tag_database(f)]; and [read_tag_database_both_ways(f)]
+    is the pair of the two one-way readers. *)
+Theorem C20_reverse_is_inverse_index :
+  forall d : dict, nodupb (keys d) = true -> Inv (of_db d).
+Proof. exact reverse_inverse. Qed.
+
+Theorem C20_read_then_reverse_inverse : forall lines, Inv (of_db (read_db lines)).
+Proof. exact read_db_reverse_inverse. Qed.
+
+Theorem C20_read_both_ways_components :
+  forall lines, read_both None lines = (read_db lines, read_db_reversed lines).
+Proof. exact read_both_components. Qed.
+
 (** * B. Several live objects (heap layer: the functions [agree] runs) *)
 
 (** 7. In every reachable state, [DB.insert] changes the receiver exactly as the
@@ -147,6 +163,66 @@ Theorem C20_copy_independent :
          /\ view (st_heap st2) ob' = lin_inserts fx (view (st_heap st) ob) (pick true l).
 Proof. exact copy_independent. Qed.
 
+(** the same for every derivation documented as returning a copy (copy,
+    reverse_copy, choose_packages_copy, filter_packages_copy,
+    filter_packages_tags_copy, filter_tags_copy, facet_collection): the source and
+    the result evolve independently under any interleaving of inserts. *)
+Theorem C20_copying_derivations_independent :
+  forall fx ops op o ob (l : mixed),
+    let st := hrun fx empty_state ops in
+    copying_of op = Some o -> nth_error (st_objs st) o = Some ob ->
+    herr_of (hstep fx st op) = None ->
+    let st1 := hstate_of (hstep fx st op) in
+    let o' := length (st_objs st) in
+    exists ob',
+      nth_error (st_objs st1) o' = Some ob'
+      /\ nth_error (st_objs st1) o = Some ob
+      /\ view (st_heap st1) ob = view (st_heap st) ob
+      /\ let st2 := hrun fx st1 (to_hops o o' l) in
+         st_objs st2 = st_objs st1
+         /\ view (st_heap st2) ob = lin_inserts fx (view (st_heap st) ob) (pick false l)
+         /\ view (st_heap st2) ob' = lin_inserts fx (view (st_heap st1) ob') (pick true l).
+Proof. exact copying_independent. Qed.
+
+(** * C. The predicates of the correspondence check *)
+
+(** 10. For EVERY history the harness can produce ([hist_wf]: operations name live
+        objects, the records given with a read are those of its lines, the order
+        given with a facet_collection is the receiver's), the answers predicted by
+        the model with the repaired insert satisfy [holds_run] — the very predicate
+        by which [holds] judges the implementation's answers: mutual inverse of the
+        observed indexes and agreement of all queries with the Spec for every
+        object the Spec still specifies.  For the code as written: off the trigger. *)
+Theorem C20_repaired_model_satisfies_holds :
+  forall probes cops, hist_wf empty_state cops = true ->
+    holds_run probes s_init cops (model_obs true probes empty_state (map to_hop cops)) = true.
+Proof. exact repaired_model_holds. Qed.
+
+Theorem C20_faithful_model_satisfies_holds :
+  forall probes cops, hist_wf empty_state cops = true ->
+    hk1_free empty_state (map to_hop cops) = true ->
+    holds_run probes s_init cops (model_obs false probes empty_state (map to_hop cops)) = true.
+Proof. exact faithful_model_holds. Qed.
+
+(** 11. Hence, on trigger-free histories, a case on which the implementation agrees
+        with the model satisfies the property: [agree] implies [holds]. *)
+Theorem C20_agree_implies_holds :
+  forall probes ops (obs : list fstep),
+    hist_wf empty_state ops = true -> hk1_free empty_state (map to_hop ops) = true ->
+    list_eqb fstep_eqb (model_obs false probes empty_state (map to_hop ops)) obs = true ->
+    holds_run probes s_init ops obs = true.
+Proof. exact agree_implies_holds. Qed.
+
+(** ([agree] and [holds] of a history case are, by definition, these two
+    expressions with [obs] the decoded observations of the implementation; the
+    theorem is stated on the decoded list so that it does not mention the
+    primitive-integer packing of the case files.) *)
+Goal forall probes ops obs,
+  agree (Hist probes ops obs)
+  = list_eqb fstep_eqb (model_obs false (map dec probes) empty_state (map to_hop ops)) (expand [] obs)
+  /\ holds (Hist probes ops obs) = holds_run (map dec probes) s_init ops (expand [] obs).
+Proof. intros. split; reflexivity. Qed.
+
 (** * Non-vacuity *)
 
 Local Open Scope string_scope.
@@ -191,6 +267,34 @@ Example C20_nonvacuous_heap :
          (st_objs (hrun false empty_state ex_hops)) = [4; 4; 3; 4]%nat.
 Proof. vm_compute. repeat split. Qed.
 
+(** the hypotheses of 9: a live object of a reachable state and a copying derivation
+    that does not raise *)
+Example C20_nonvacuous_copy :
+  exists ob,
+    nth_error (st_objs (hrun false empty_state ex_hops)) 1 = Some ob
+    /\ package_count (view (st_heap (hrun false empty_state ex_hops)) ob) = 4%nat
+    /\ copying_of (HChooseCopy 1 [dec "a"; dec "d"]) = Some 1%nat
+    /\ herr_of (hstep false (hrun false empty_state ex_hops) (HChooseCopy 1 [dec "a"; dec "d"])) = None.
+Proof. eexists. vm_compute. repeat split. Qed.
+
+Definition ex_cops : list cop :=
+  [CNew;
+   CRead 0 ["a, b: role::program, use::editing"; "c: use::editing"] None
+         [(["a"; "b"], ["role::program"; "use::editing"]); (["c"], ["use::editing"])];
+   CCopy 0;
+   CInsert 1 "d" ["use::editing"];
+   CFilterT 0 (PIn ["use::editing"]);
+   CInsert 0 "e" ["role::program"];
+   CChooseCopy 1 ["a"; "zz"];
+   CFacet 1 ["a"; "b"; "c"; "d"]].
+
+Example C20_nonvacuous_check :
+  hist_wf empty_state ex_cops = true
+  /\ hk1_free empty_state (map to_hop ex_cops) = true
+  /\ map f_err (model_obs false [dec "a"] empty_state (map to_hop ex_cops))
+     = [None; None; None; None; None; None; Some KeyError; None].
+Proof. vm_compute. repeat split. Qed.
+
 Print Assumptions C20_inverse_invariant_repaired.
 Print Assumptions C20_inverse_invariant.
 Print Assumptions C20_faithful_eq_repaired_off_trigger.
@@ -200,8 +304,15 @@ Print Assumptions C20_inverse_invariant_refuted.
 Print Assumptions C20_queries_agree_repaired.
 Print Assumptions C20_queries_agree.
 Print Assumptions C20_choose_copy_keyerror.
+Print Assumptions C20_reverse_is_inverse_index.
+Print Assumptions C20_read_then_reverse_inverse.
+Print Assumptions C20_read_both_ways_components.
 Print Assumptions C20_heap_insert_is_linear_insert.
 Print Assumptions C20_heap_inverse_invariant_repaired.
 Print Assumptions C20_heap_inverse_invariant.
 Print Assumptions C20_heap_faithful_eq_repaired_off_trigger.
 Print Assumptions C20_copy_independent.
+Print Assumptions C20_copying_derivations_independent.
+Print Assumptions C20_repaired_model_satisfies_holds.
+Print Assumptions C20_faithful_model_satisfies_holds.
+Print Assumptions C20_agree_implies_holds.
